@@ -39,7 +39,7 @@ def required(tier):
 
 NEWDEFS = ["vfu0 = 3 * meter = vf0", "vfu1 = 7 * vfu0", "vfu2 = 2 * pound * vfu1 / second ** 2",
            "vfu3 = 5 * kilovfu0", "vfu4 = 1.5 * degree_Celsius * 0 + 2 * kelvin"]
-NEWDEFS = NEWDEFS[:4]
+NEWDEFS = NEWDEFS[:4] + ["dab = 5 * meter"]   # a NEW name that earlier lookups read as deca+barn
 SYSTEMS = ["mks", "cgs", "imperial", "SI", None]
 
 QUESTIONS = [
@@ -66,6 +66,8 @@ QUESTIONS = [
     ("convert", "jute", "tex"), ("convert", "number_english", "number_meter"),
     ("convert", "international_british_thermal_unit", "joule"), ("convert", "psi", "bar"),
     ("root", "reyn"), ("base", "ksi"), ("to_base", "horsepower", 2),
+    # 'dab' reads as decabarn until the history defines a unit of that name; afterwards the exact name wins
+    ("parse_units", "dab"), ("convert", "dab", "meter"), ("convert", "dab", "barn"), ("dim", "dab"),
 ]
 
 OPS = ["q"] * 0 + ["define", "ctx_rule_on", "ctx_redef_on", "ctx_off", "sys", "second", "q0", "q1", "q2", "q3",
@@ -202,7 +204,8 @@ def run_history(ops, world, rec, rng, tag):
     trace = []
     defined_inside_redef = set()   # names defined while a redefining context was active (finding D18)
     pool = rng.sample(QUESTIONS, 8)
-    pool[:3] = rng.sample(QUESTIONS[-15:], 3)   # always some dependants of the redefined unit
+    pool[:3] = rng.sample(QUESTIONS[-19:-4], 3)   # always some dependants of the redefined unit
+    pool[3] = rng.choice(QUESTIONS[-4:])           # and one question about the name that gets defined later
     for op in ops:
         state_before = (ndefs, tuple(stack), system)
         if op == "define":
@@ -276,6 +279,7 @@ def run_history(ops, world, rec, rng, tag):
                           question_kind=q[0], redefining_context_active=in_redef,
                           redefining_context_used_earlier=was_redef and not in_redef,
                           touches_base_units=q[0] in ("base", "to_base", "compact"), workload=tag,
+                          asks_about_name_first_read_as_prefixed_unit_then_defined=("dab" in repr(q) and ndefs >= 5),
                           asks_about_unit_defined_inside_redefining_context=any(
                               n in repr(q) or (n == "vfu0" and "vf0" in repr(q)) for n in
                               closure_defs(defined_inside_redef)))
